@@ -13,7 +13,7 @@ RefS == JsonDeserialize(IOEnv.REF)
 VARIABLES run, rp
 varsEq == <<vars, run, rp>>
 
-ActorLine(ln) == ln.e \in {"issue", "ret", "killed"}
+ActorLine(ln) == ln.e \in {"issue", "ret", "killed", "onexit"}
 Zero(r) == [m |-> 0, a |-> [i \in 1..Len(RefS[r].a) |-> 0]]
 Consumed(r, p) == p.m = Len(RefS[r].m) /\ \A i \in 1..Len(RefS[r].a) : p.a[i] = Len(RefS[r].a[i])
 
@@ -34,7 +34,7 @@ Match ==
 
 TEof == /\ More /\ Ln.e = "eof" /\ fin /\ Consume /\ UNCHANGED <<pid, st, pend, fin>>
 
-NextEq == \/ ((TSilentFire \/ TSilentComplete) /\ UNCHANGED <<run, rp>>)
-          \/ ((TReset \/ (TSkip /\ Ln.e # "eof") \/ TIssue \/ THandle \/ TAnswer \/ TRet \/ TAdv \/ TEnd \/ TEof) /\ Match)
+NextEq == \/ ((TSilentFire \/ TSilentComplete \/ TSilentDaemonKill) /\ UNCHANGED <<run, rp>>)
+          \/ ((TReset \/ (TSkip /\ Ln.e # "eof") \/ TIssueDying \/ TKilled \/ TOnExit \/ TIssue \/ THandle \/ TAnswer \/ TRet \/ TAdv \/ TEnd \/ TEof) /\ Match)
 SpecEq == InitEq /\ [][NextEq]_varsEq
 =============================================================================
